@@ -40,9 +40,7 @@ func init() {
 	reg("os.ReadDir", "may fail; returns a fresh slice of non-nil entries in any number", func(fr *Frame, in ssa.Instruction, st *State, args []Value, rt types.Type) Value {
 		p := fr.p
 		tt := rt.(*types.Tuple)
-		s := freshValue(tt.At(0).Type(), "readdir").(SliceV)
-		p.assume(True(), p.typeInv(st, tt.At(0).Type(), s))
-		st.HeapTop = p.bumpHeapTop(st.HeapTop, "heaptop")
+		s := p.freshSliceResult(st, tt.At(0).Type(), "readdir")
 		p.nonNilElems[s.Ref.id] = true
 		return TupleV{s, freshErr(p, "readdir.err")}
 	})
@@ -101,11 +99,8 @@ func init() {
 
 	reg("(*regexp.Regexp).FindStringSubmatch", "nil, or a fresh slice with one entry per group + 1; for dateRE (one group): match[1] is a 10-byte substring of the name ending 5 bytes before its end", func(fr *Frame, in ssa.Instruction, st *State, args []Value, rt types.Type) Value {
 		p := fr.p
-		s := freshValue(rt, "submatch").(SliceV)
-		p.assume(True(), p.typeInv(st, rt, s))
-		p.assume(True(), Or(Eq(s.Ref, BVInt(0, 64)), And(BVUge(s.Ref, st.HeapTop), BVSle(BVInt(1, 64), s.Len))))
-		st.HeapTop = p.bumpHeapTop(st.HeapTop, "heaptop")
-		p.assume(True(), BVUlt(s.Ref, st.HeapTop))
+		s := p.freshSliceResult(st, rt, "submatch")
+		p.assume(True(), Or(Eq(s.Ref, BVInt(0, 64)), BVSle(BVInt(1, 64), s.Len)))
 		return s
 	})
 	libEffTable["(*regexp.Regexp).FindStringSubmatch"] = func(e *effects) { e.alloc = true }
@@ -113,11 +108,7 @@ func init() {
 	reg("encoding/json.MarshalIndent", "may fail; on success returns fresh bytes (an uninterpreted injective rendering of the value)", func(fr *Frame, in ssa.Instruction, st *State, args []Value, rt types.Type) Value {
 		p := fr.p
 		tt := rt.(*types.Tuple)
-		s := freshValue(tt.At(0).Type(), "json").(SliceV)
-		p.assume(True(), p.typeInv(st, tt.At(0).Type(), s))
-		p.assume(True(), Or(Eq(s.Ref, BVInt(0, 64)), BVUge(s.Ref, st.HeapTop)))
-		st.HeapTop = p.bumpHeapTop(st.HeapTop, "heaptop")
-		p.assume(True(), BVUlt(s.Ref, st.HeapTop))
+		s := p.freshSliceResult(st, tt.At(0).Type(), "json")
 		return TupleV{s, freshErr(p, "json.err")}
 	})
 	libEffTable["encoding/json.MarshalIndent"] = func(e *effects) { e.alloc = true }
